@@ -22,10 +22,17 @@ nodes and tags if the two differ only in that), and the Lean matcher then runs o
 
 **What is proved about the compiler model**: every model it emits for an AST the parser can produce is
 `Sane` and `VDet` (`compiled_match_iff`: the hypotheses of `compile_correct_partial` are discharged for
-compiler output).  **What is not proved**: `compile_correct` — that the tree denotes the source text
-(lvs.rst): numbering preserves the source semantics, replication = union over alternatives and inlined
-references, node merging preserves the accepted (name, bindings) pairs.  That half of C11 rests on the
-correspondence run and on the source-level oracle of the harness.
+compiler output); and the last layer of `compile_correct`, **node merging** (`tree_eq_chains`,
+`checker_reports_iff_chain`): the tree `_generate_node` builds from the replicated rule chains accepts a name
+at a node carrying rule `r`, with bindings `σ'`, iff one of the chains of `r` accepts the name on its own with
+the same bindings (`ChainRun`: literals equal; the constraints `pattern_movement` attaches to the first
+occurrence of a pattern hold under the bindings made so far; a named pattern binds or repeats; a temporary one
+binds nothing) — given that the merge key (`pattern_movement`'s string) determines tag and constraints
+(`KeyInj`, a hypothesis: it is a property of the string encoding, true for identifiers the grammar admits;
+`merge_key_test_sound`: it follows from a computable test the drivers evaluate on every generated schema).
+**What is not proved**: the two earlier layers of `compile_correct` — numbering preserves the source
+semantics, and replication = union over DNF alternatives and inlined references (with fresh temporaries per
+occurrence) — and `KeyInj` itself.  These rest on the correspondence run and the source-level oracle.
 -/
 namespace Ndn.C11
 open Ndn Ndn.Lvs
@@ -67,8 +74,9 @@ theorem matchTree_iff_Sem (m : Model) (hs : Sane m) (hv : VDet m) (env : FnEnv) 
 /-- **compile_correct_partial.**  Full statement (not proved):
     `WFSchema S → ∀ name, {(rule, bindings) reported by Checker(compile S).match name} = Sem S name`,
     where `Sem` is the source-level semantics of docs/src/lvs/lvs.rst.  The compiler is modelled
-    (`Ndn.Lvs.compile`) and its output is proved `Sane` and `VDet` (`compiled_match_iff`), but the three
-    semantic layers (numbering, replication, node merging preserve `Sem`) are not proved.
+    (`Ndn.Lvs.compile`), its output is proved `Sane` and `VDet` (`compiled_match_iff`), and the node-merging
+    layer is proved (`tree_eq_chains`, `checker_reports_iff_chain`: compiled tree = union of its chains, given
+    an injective merge key); the numbering and replication layers (chains = source rules) are not.
     Proved part, for every model that passes the loader (in particular the compiler's output, used
     directly or after save/load, which yields the same `Model` value): the iterative checker reports node
     `n` with bindings `σ'` iff `name` matches `n` with `σ'` in the denotation of the compiled tree. -/
@@ -87,6 +95,59 @@ theorem compiled_match_iff (S : Schema) (hwf : S.WF) (m : Model) (syms : List St
     (name : List Bytes) (σ : Ctx) (n : Nat) (σ' : Ctx) :
     (n, σ') ∈ (matchIter m env name σ).outs ↔ Matches m (pureOf env) σ name n σ' :=
   compile_correct_partial m (compile_built S hwf m syms h).sane (compile_vdet S m syms h) env henv name σ n σ'
+
+/-- **tree_eq_chains** (node merging preserves the accepted pairs).  `chains` are the replicated rule chains
+    (`chainsOf`, passes 1–3), `m` the model built from them (passes 4–5).  For bindings `σ` over named patterns:
+    a name is matched (specification `Matches`) at a node that carries rule `rid`, ending with bindings `σ'`,
+    iff a chain with identifier `rid` accepts the name on its own (`ChainRun`) with the same bindings.
+    Hypothesis `KeyInj`: the merge key `pattern_movement` computes determines the tag and the constraints. -/
+theorem tree_eq_chains (S : Schema) (chains : List Chain) (named : List String) (m : Model)
+    (h1 : chainsOf S = .ok (chains, named)) (h2 : buildModel chains named = .ok m) (hkey : KeyInj chains)
+    (fns : PureEnv) (σ : Ctx) (hσ : CtxLe named.length σ) (name : List Bytes) (σ' : Ctx) (rid : String) :
+    (∃ n node, Matches m fns σ name n σ' ∧ m.nodes[n]? = some node ∧ rid ∈ node.ruleNames) ↔
+      ∃ rc ∈ chains, rc.id = rid ∧ ChainRun fns rc rc.name [] σ name σ' :=
+  buildModel_sem chains named m h2 hkey (chainsOf_tagsLe S chains named h1) fns σ hσ name σ' rid
+
+/-- **merge_key_test_sound.** `KeyInj` follows from the computable test `keyInjB`, which the model drivers evaluate
+    on the chains of every generated schema (the harness requires it to be true on each of them). -/
+theorem merge_key_test_sound (chains : List Chain) (h : keyInjB chains = true) : KeyInj chains :=
+  keyInj_of_keyInjB chains h
+
+/-- `compile` is `chainsOf` followed by `buildModel` -/
+theorem compile_split (S : Schema) (m : Model) (syms : List String) (h : compile S = .ok (m, syms)) :
+    ∃ chains, chainsOf S = .ok (chains, syms) ∧ buildModel chains syms = .ok m := by
+  unfold compile at h
+  split at h
+  · simp at h
+  · rename_i chains named hch
+    split at h
+    · simp at h
+    · rename_i m' hb
+      injection h with h
+      simp only [Prod.mk.injEq] at h
+      obtain ⟨rfl, rfl⟩ := h
+      exact ⟨chains, hch, hb⟩
+
+/-- **checker_reports_iff_chain.** The same for what the real search reports: for a schema the parser can
+    produce that compiles, total user functions and bindings over named patterns, the iterative checker yields
+    a node carrying rule `rid` with bindings `σ'` iff a chain of `rid` accepts the name with these bindings. -/
+theorem checker_reports_iff_chain (S : Schema) (hwf : S.WF) (m : Model) (syms : List String) (chains : List Chain)
+    (h : compile S = .ok (m, syms)) (hch : chainsOf S = .ok (chains, syms)) (hkey : KeyInj chains)
+    (env : FnEnv) (henv : EnvTotal env) (σ : Ctx) (hσ : CtxLe syms.length σ) (name : List Bytes) (σ' : Ctx)
+    (rid : String) :
+    (∃ n node, (n, σ') ∈ (matchIter m env name σ).outs ∧ m.nodes[n]? = some node ∧ rid ∈ node.ruleNames) ↔
+      ∃ rc ∈ chains, rc.id = rid ∧ ChainRun (pureOf env) rc rc.name [] σ name σ' := by
+  obtain ⟨chains', hch', hb⟩ := compile_split S m syms h
+  rw [hch] at hch'
+  injection hch' with hch'
+  simp only [Prod.mk.injEq] at hch'
+  obtain ⟨rfl, _⟩ := hch'
+  rw [← tree_eq_chains S chains syms m hch hb hkey (pureOf env) σ hσ name σ' rid]
+  constructor
+  · intro ⟨n, node, ho, hn, hr⟩
+    exact ⟨n, node, (compiled_match_iff S hwf m syms h env henv name σ n σ').mp ho, hn, hr⟩
+  · intro ⟨n, node, hm, hn, hr⟩
+    exact ⟨n, node, (compiled_match_iff S hwf m syms h env henv name σ n σ').mpr hm, hn, hr⟩
 
 /-- the compiler emits one value edge per distinct component -/
 theorem compiled_vdet (S : Schema) (m : Model) (syms : List String) (h : compile S = .ok (m, syms)) : VDet m :=
@@ -119,6 +180,25 @@ example : (matchIter model allFns [cD, cE] []).outs = [(2, [(1, cE)])] := by dec
 /-- the schema compiles (in the compiler model) to the model of these examples -/
 example : compile Example.schema = .ok (Example.model, ["x"]) := Example.compile_schema
 example : VDet Example.model := compiled_vdet _ _ _ Example.compile_schema
+example : KeyInj Example.chains := merge_key_test_sound _ (by decide)
+/-- node merging on the example: `/d/e` reaches a node of `#p` with `x = e` iff a chain of `#p` runs on it -/
+example : ∃ rc ∈ Example.chains, rc.id = "#p" ∧
+    ChainRun (pureOf Example.allFns) rc rc.name [] [] [Example.cD, Example.cE] [(1, Example.cE)] :=
+  (tree_eq_chains Example.schema Example.chains ["x"] Example.model Example.chainsOf_schema Example.buildModel_chains
+    Example.keyInj_chains (pureOf Example.allFns) [] (by intro t v h; simp [PyDict.get?] at h)
+    [Example.cD, Example.cE] [(1, Example.cE)] "#p").mp
+    ⟨2, Example.model.nodes[2], Ndn.Lvs.matchTree_sound Example.model Example.allFns [Example.cD, Example.cE] _ _ _ _ (by decide),
+      rfl, by decide⟩
+example : ∃ n node, (n, [(1, Example.cE)]) ∈ (matchIter Example.model Example.allFns [Example.cD, Example.cE] []).outs ∧
+    Example.model.nodes[n]? = some node ∧ "#p" ∈ node.ruleNames :=
+  (checker_reports_iff_chain Example.schema Example.schema_wf Example.model ["x"] Example.chains Example.compile_schema
+    Example.chainsOf_schema Example.keyInj_chains Example.allFns (fun _ => ⟨_, rfl, fun _ _ => ⟨true, rfl⟩⟩) []
+    (by intro t v h; simp [PyDict.get?] at h) [Example.cD, Example.cE] [(1, Example.cE)] "#p").mpr
+    ⟨_, List.mem_cons_of_mem _ List.mem_cons_self, rfl, by
+      simp only [ChainRun, BindStep, Example.cD]
+      refine ⟨trivial, ?_, [(1, Example.cE)], ?_, rfl⟩
+      · intro cl hcl; simp [pmove] at hcl
+      · right; exact ⟨rfl, rfl⟩⟩
 open Example in
 example : Matches model (pureOf allFns) [] [cD, cE] 2 [(1, cE)] :=
   (compiled_match_iff schema schema_wf model ["x"] compile_schema allFns
